@@ -94,7 +94,7 @@ package dawn
 // Run options are set once per Run, before the runner starts, and nothing else writes them.
 //@ struct dawn.Project
 //@   stable always, dryrun writers (*dawn.RunOptions).apply
-//@   stable events writers dawn.Load, (*dawn.LoadOptions).apply
+//@   stable events writers dawn.Load, (*dawn.LoadOptions).apply, (*dawn.Project).builtin_run, (*dawn.Project).builtin_run$1
 
 //@ func (dawn.Events).TargetUpToDate
 //@   requires protocol: phase == 0
